@@ -167,6 +167,7 @@ class Analysis:
         "shutil.copytree": ["src", "dst"], "shutil.copy2": ["src", "dst"], "shutil.copy": ["src", "dst"],
         "shutil.copyfile": ["src", "dst"], "shutil.move": ["src", "dst"], "os.rename": ["src", "dst"],
         "os.replace": ["src", "dst"], "shutil.rmtree": ["path"], "os.kill": ["pid", "sig"], "os.killpg": ["pgid", "sig"],
+        "os.path.relpath": ["path", "start"],
     }
 
     def signature(self, call: ast.Call) -> Optional[List[str]]:
@@ -745,8 +746,38 @@ class Analysis:
             return None
         f = self.prog.functions[cs[0]]
         body = [b for b in f.node.body if not (isinstance(b, ast.Expr) and isinstance(b.value, ast.Constant))]
-        if len(body) != 1 or not isinstance(body[0], ast.Return) or body[0].value is None or f.is_static or len(f.params) != 1:
+        if f.is_static or len(f.params) != 1:
             return None
+        if len(body) != 1 or not isinstance(body[0], ast.Return) or body[0].value is None:
+            # `if T: return V … return W` (guard clauses only): the value as one boolean expression
+            def as_expr(stmts):
+                if not stmts:
+                    return None
+                st = stmts[0]
+                if isinstance(st, ast.Return) and st.value is not None:
+                    return st.value
+                if isinstance(st, ast.If):
+                    a = as_expr(list(st.body))
+                    b = as_expr(list(st.orelse) if st.orelse else stmts[1:])
+                    if a is None or b is None:
+                        return None
+                    def const(x, v):
+                        return isinstance(x, ast.Constant) and x.value is v
+                    if const(a, True):        # if T: return True; return b   ≡   T or b
+                        return ast.BoolOp(op=ast.Or(), values=[st.test, b])
+                    if const(a, False):       # if T: return False; return b  ≡   not T and b
+                        return ast.BoolOp(op=ast.And(), values=[ast.UnaryOp(op=ast.Not(), operand=st.test), b])
+                    if const(b, False):       # if T: return a; return False  ≡   T and a
+                        return ast.BoolOp(op=ast.And(), values=[st.test, a])
+                    if const(b, True):        # if T: return a; return True   ≡   not T or a
+                        return ast.BoolOp(op=ast.Or(), values=[ast.UnaryOp(op=ast.Not(), operand=st.test), a])
+                    return ast.BoolOp(op=ast.Or(), values=[ast.BoolOp(op=ast.And(), values=[st.test, a]),
+                                                           ast.BoolOp(op=ast.And(), values=[ast.UnaryOp(op=ast.Not(), operand=st.test), b])])
+                return None
+            whole = as_expr(body)
+            if whole is None:
+                return None
+            body = [ast.Return(value=whole)]
         recv = call.func.value
 
         class R(ast.NodeTransformer):
@@ -767,7 +798,8 @@ class Analysis:
         if isinstance(e, ast.Call) and _depth < 4 and (inline_preds or self._is_new_predicate(e)):
             pb = self.pred_body(e, fi)
             if pb is not None:
-                return self.dnf(pb, positive, fi, inline=False, _depth=_depth + 1, inline_preds=True)
+                # a predicate read through only because it is new keeps the caller's setting for the known ones inside it
+                return self.dnf(pb, positive, fi, inline=False, _depth=_depth + 1, inline_preds=inline_preds)
         if isinstance(e, ast.BoolOp):
             is_and = isinstance(e.op, ast.And)
             parts = [self.dnf(v, positive, fi, inline, _depth, inline_preds, xstop) for v in e.values]
